@@ -877,5 +877,8 @@ HPbitshutdown(void)
     /* Shutdown the file ID atom group */
     HAdestroy_group(BITIDGROUP);
 
+    /* Allow the interface to be initialized again */
+    library_terminate = FALSE;
+
     return SUCCEED;
 } /* end HPbitshutdown() */
